@@ -20,6 +20,9 @@ RULE = ("two random plain histories on the same network (G-expr/G-tt/G-compose i
 ASSUMPTIONS = ["E1, E3 as for C04; summary: seeds are taken from the real code, attractors from Sem.attractors"]
 
 
+RARE_CFG = 0.1     # share of cases run under rarely used option values (same results expected)
+
+
 def budget(tier):
     return 700 if tier == "quick" else 6000
 
